@@ -603,6 +603,54 @@ pub fn static_rows(o: &mut Outcome) {
 }
 
 /// The 65 536th value.
+/// The special empty (0-byte) value: accepted for the types documented as emptiable, refused - leaving the bound
+/// values as they were - for counter, duration, collections and UDTs.
+pub fn empty_values(o: &mut Outcome) {
+    let rp = json!({"kind": "empty_values"});
+    let mut cols: Vec<(String, scylla_cql_core::frame::response::result::ColumnType<'static>, bool)> = Vec::new();
+    for nat in crate::refmodel::typecompat::NATIVES {
+        cols.push((nat.name().to_string(), column_type(&n(nat)), !matches!(nat, Nat::Counter | Nat::Duration)));
+    }
+    cols.push(("list<int>".into(), column_type(&Ty::list(n(Nat::Int))), false));
+    cols.push(("set<duration>".into(), column_type(&Ty::set(n(Nat::Duration))), false));
+    cols.push(("map<int,text>".into(), column_type(&Ty::map(n(Nat::Int), n(Nat::Text))), false));
+    for (name, col, emptiable) in &cols {
+        let mut sv = SerializedValues::new();
+        let _ = sv.add_value(&7i32, &column_type(&n(Nat::Int)));
+        let before = match snap::take(&sv) {
+            Ok(s) => s,
+            Err(e) => {
+                o.violation("empty:prefix-inconsistent", e, rp.clone());
+                return;
+            }
+        };
+        let r = sv.add_value(&CqlValue::Empty, col);
+        o.evals(1);
+        match (emptiable, r) {
+            (true, Ok(())) => o.class("empty:accepted-for-an-emptiable-type"),
+            (false, Err(_)) => {
+                o.class("empty:refused-for-a-non-emptiable-type");
+                match snap::take(&sv) {
+                    Ok(after) if after == before => {}
+                    _ => o.violation("empty:failed-bind-changed-the-request", format!("after refusing the empty value for {name} the bound values differ from before"), rp.clone()),
+                }
+            }
+            (true, Err(e)) => o.violation("empty:refused-for-an-emptiable-type", format!("CqlValue::Empty was refused for {name}: {e}"), rp.clone()),
+            (false, Ok(())) => o.violation("empty:accepted-for-a-non-emptiable-type", format!("CqlValue::Empty was accepted for {name}, which has no empty value: a zero-length cell would be sent"), rp.clone()),
+        }
+        // the same inside a list
+        let lcol = scylla_cql_core::frame::response::result::ColumnType::Collection { frozen: false, typ: scylla_cql_core::frame::response::result::CollectionType::List(Box::new(col.clone())) };
+        let mut s2 = SerializedValues::new();
+        let r2 = s2.add_value(&CqlValue::List(vec![CqlValue::Empty]), &lcol);
+        o.evals(1);
+        match (emptiable, r2) {
+            (true, Ok(())) | (false, Err(_)) => {}
+            (true, Err(e)) => o.violation("empty:refused-for-an-emptiable-type", format!("[CqlValue::Empty] was refused for list<{name}>: {e}"), rp.clone()),
+            (false, Ok(())) => o.violation("empty:accepted-for-a-non-emptiable-type", format!("[CqlValue::Empty] was accepted for list<{name}>"), rp.clone()),
+        }
+    }
+}
+
 /// The lazy carriers (`VectorIterator<T>`, `ListlikeIterator<T>`, `MapIterator<K, V>`) check their element
 /// types like the eager ones: a column whose element type `T` does not fit is refused by `type_check`
 /// (also nested and through the row layer), a fitting one is accepted. Only clear-cut pairs are asserted.
